@@ -3,6 +3,7 @@
 # builds, existing suite passes, demo fails with the change and passes without; then runs the property's check on the changed tree.
 set -uo pipefail
 cd "$(dirname "$0")"; . ./env.sh
+./trimcache.sh
 ID=$1; V=$2; SRC=${3:-/tmp/seed-out/$ID/$V}
 WT=/tmp/seedchk/$ID-$V
 rm -rf "$WT"; git -C /repo worktree prune; mkdir -p /tmp/seedchk
